@@ -456,7 +456,18 @@ func genC07(rng *core.Rand, env *core.Env, run int) *Scenario {
 			sc.Faults.Directed = d
 		}
 	}
-	sc.Clients = genWorkload(r, av, nclients, total, true, directedKnobs(sc))
+	pad := directedKnobs(sc)
+	if sc.Variant == "fault-free" && sc.Faults.Directed == "" && r.Bool(0.12) {
+		// values of several hundred KB from several clients at once: whatever bounds
+		// the leader keeps on proposed-but-unapplied data, an accepted command is
+		// answered (nothing is lost in this configuration)
+		pad = 300000 + r.Intn(400000)
+		total = 6 + r.Intn(8)
+		nclients = 2 + r.Intn(2)
+		k.SegmentKiB = 64
+		k.LargeValues = true
+	}
+	sc.Clients = genWorkload(r, av, nclients, total, true, pad)
 	// management commands in the shapes a careless operator produces: in the
 	// configurations that change the membership anyway, and in a share of the rest
 	if sc.Faults.Directed == "" && (sc.Variant == "rconf" || r.Bool(0.12)) {
